@@ -801,24 +801,21 @@ def long_id(n=300):
     return "L" + "x" * 120 + "/" + "y" * (n - 122)
 
 
-ABS_LITERALS = ("/abs", "/ab")          # where the literal absolute ids land when a guard regresses (0002/0006: /abs, 0007: /ab)
-_abs_leftover = [p for p in ABS_LITERALS if os.path.lexists(p)]
-
-
 def hostile_ids(w, layout):
+    # absolute ids point INTO the scratch tree (<outer>/abs-target): a broken guard then writes where the sentinel
+    # snapshot sees it and nothing outside /verif/.build can be touched.  Layout 0007 cuts its tuples from the id
+    # text, so an absolute id necessarily lands at /<3 chars>/... outside the scratch tree: none is generated there.
     absolute_in_outer = os.path.join(w.outer, "abs-target")
     pool = _hostile_ids(w, layout, absolute_in_outer)
-    if _abs_leftover:
-        # a directory left behind by an earlier regression run would be followed by the real code (it holds an
-        # object at the mapped path): leave the literal absolute ids out rather than report that run's debris
-        pool = [x for x in pool if not x[1].startswith("/abs") and ":/abs" not in x[1]]
+    if layout == "0007":
+        pool = [x for x in pool if not x[1].rsplit(":", 1)[-1].startswith("/")]
     return pool
 
 
 def _hostile_ids(w, layout, absolute_in_outer):
     pool = [
         ("dotdot", ".."), ("dotdot", "../x"), ("dotdot", "../../esc"), ("dotdot", "x/../y"), ("dotdot", "a/../../b"),
-        ("dotdot", "x/../../area/root-twin"), ("dotdot-late", "batch-2024/../../escaped/obj"), ("dotdot-late", "nonexist/sub/../../../escaped2"), ("absolute", "/abs/path"), ("absolute", absolute_in_outer), ("curdir", "./x"),
+        ("dotdot", "x/../../area/root-twin"), ("dotdot-late", "batch-2024/../../escaped/obj"), ("dotdot-late", "nonexist/sub/../../../escaped2"), ("absolute", absolute_in_outer), ("absolute", absolute_in_outer + "/deeper/obj"), ("curdir", "./x"),
         ("curdir", "."), ("nested", "a/b"), ("nested", "a/v1/content/deep"), ("above", "p"), ("prefix", "ab"), ("prefix", "a"),
         ("long", long_id()), ("quote", "q'uo\"te"), ("extensions", "extensions"), ("extensions", "extensions/rocfl-staging/x"),
         ("extensions", "extensions/x"), ("slash-end", "trail/"), ("space", "x y"), ("unicode", "ü/é"),
@@ -826,7 +823,7 @@ def _hostile_ids(w, layout, absolute_in_outer):
     ]
     if layout in ("0006", "0007"):
         pool += [("colon", "urn:x:.."), ("colon", "pre:../x"), ("colon", "a:1"), ("colon", "b:1"), ("colon", "x:."),
-                 ("colon", "x:/abs/p"), ("colon", "urn:a/b"), ("colon", "n:extensions"), ("colon", "::"),
+                 ("colon", "x:" + absolute_in_outer + "-c"), ("colon", "urn:a/b"), ("colon", "n:extensions"), ("colon", "::"),
                  ("colon", "k:a"), ("colon", "x:a/v1/content"), ("colon", "y:p"), ("dotdot-late", "z:batch-2024/../../escaped/obj"),
                  ("nested", "z:a/v1/content/sub")]
     return pool
@@ -834,7 +831,7 @@ def _hostile_ids(w, layout, absolute_in_outer):
 
 HOSTILE_DST = [("dst-dotdot", "../x"), ("dst-abs", "/abs"), ("dst-dotdot", "a/../../b"), ("dst-dot", "."), ("dst-dotdot", ".."),
                ("dst-empty-seg", "a//b"), ("dst-dotdot", "d/../e.txt"), ("dst-slash", "/")]
-HOSTILE_ROOTS = [("root-dotdot-late", "newdir/../../escaped-root"), ("root-nested", "objs/A/v1/content/sub"), ("root-dotdot", "../x"), ("root-abs", "/abs/root"), ("root-dotdot", "x/../../y"), ("root-nested", "objs/A/v1/in"),
+HOSTILE_ROOTS = [("root-dotdot-late", "newdir/../../escaped-root"), ("root-nested", "objs/A/v1/content/sub"), ("root-dotdot", "../x"), ("root-abs", "@ABS@/abs-root/r"), ("root-dotdot", "x/../../y"), ("root-nested", "objs/A/v1/in"),
                  ("root-curdir", "."), ("root-empty", "/"), ("root-extensions", "extensions/rocfl-staging/zz"),
                  ("root-extensions", "extensions"), ("root-occupied", "objs/A"), ("root-ok", "//objs//H//"),
                  ("root-above", "objs"), ("root-dotdot", "objs/../../z"), ("root-curdir", "./objs/./H2")]
@@ -907,12 +904,26 @@ def gen_history(rng, w, n_random, stats):
         stats["hostile_mv_source_" + sp] = stats.get("hostile_mv_source_" + sp, 0) + 1
         steps.append({"op": "mv_ext", "id": A, "special": sp, "dst": "stolen-%s/" % sp[:6], "hostile": "mv-" + sp})
     steps.append({"op": "upgrade", "id": A} if (a_spec10 and not spec10) else commit(A))
+    # an object planted OUTSIDE the storage root exactly where the layout maps a hostile id (fix 3fb070d: such a
+    # layout path is never looked at): every operation on that id must leave the planted tree alone
+    if lay in ("0002", "0006"):
+        pre_ = "z:" if lay == "0006" else ""
+        for variant, pid_, dest in (("planted-rel", pre_ + "../x", os.path.join(w.area, "x")),
+                                    ("planted-abs", pre_ + os.path.join(w.outer, "abs-planted"), os.path.join(w.outer, "abs-planted"))):
+            stats["hostile_" + variant] = stats.get("hostile_" + variant, 0) + 1
+            steps.append({"op": "plant", "from": A, "id": pid_, "dest": dest})
+            seq = [{"op": "cp_ext", "id": pid_, "src": [src_file()], "dst": "pl.txt"}, {"op": "rm", "id": pid_, "paths": ["a.txt"]},
+                   {"op": "cp_int", "id": pid_, "src": ["a.txt"], "dst": "a-copy.txt"}, commit(pid_), {"op": "upgrade", "id": pid_},
+                   {"op": "purge", "id": pid_}, {"op": "new", "id": pid_},
+                   {"op": "cp_ext", "id": pid_, "src": [src_file()], "dst": "pl2.txt"}, commit(pid_), {"op": "reset_all", "id": pid_}]
+            for st_ in (seq if variant == "planted-rel" else rng.sample(seq[:6], 3) + seq[6:]):
+                steps.append(dict(st_, hostile=variant))
     known = {A: ["a.txt", "copy/a2.txt", "moved/new3.txt", "moved/b2.txt", "dir/x.txt", "dir/e/y.txt", "mv/m.txt", "late.txt", "mv/d/x.txt"]}
     # --- hostile ids
     pool = hostile_ids(w, lay)
     rng.shuffle(pool)
     must = [x for x in pool if x[1] in ("../x", "a/b", "a/v1/content/deep", ".", "extensions/rocfl-staging/x", "pre:../x", "x:.",
-                                        "x:a/v1/content", "p", "y:p", "/abs/path", "ab")]
+                                        "x:a/v1/content", "p", "y:p", "ab") or x[0] == "absolute"]
     rng.shuffle(must)
     # always: ".." after a first segment that does not exist, and a root nested (depth >= 2) inside a committed
     # version directory of object A (layouts 0002 / 0006 / none with -r)
@@ -939,6 +950,7 @@ def gen_history(rng, w, n_random, stats):
         root = None
         if lay == "none":
             rcls, root = rng.choice(HOSTILE_ROOTS)
+            root = root.replace("@ABS@", w.outer)          # absolute roots point into the scratch tree
             stats["hostile_" + rcls] = stats.get("hostile_" + rcls, 0) + 1
         if rng.random() < 0.15:
             steps.append({"op": "upgrade", "id": hid, "hostile": cls})       # upgrade of a never committed object (commits it)
@@ -1036,6 +1048,31 @@ def gen_history(rng, w, n_random, stats):
     return steps
 
 
+def plant_object(src_root, dst, new_id):
+    """a copy of a committed object, with another id, at a place OUTSIDE the storage root (what a third party, or an
+    earlier broken version, may have left where the layout maps a hostile id)"""
+    if os.path.lexists(dst) or not os.path.isdir(src_root):
+        return False
+    os.makedirs(os.path.dirname(dst), exist_ok=True)
+    shutil.copytree(src_root, dst, symlinks=True)
+    for d_, _, files in os.walk(dst):
+        if "inventory.json" in files:
+            ip = os.path.join(d_, "inventory.json")
+            try:
+                inv = json.load(open(ip, encoding="utf-8"))
+            except ValueError:
+                continue
+            inv["id"] = new_id
+            data = json.dumps(inv).encode("utf-8")
+            with open(ip, "wb") as f:
+                f.write(data)
+            alg = inv.get("digestAlgorithm", "sha512")
+            h = hashlib.sha256(data).hexdigest() if alg == "sha256" else hashlib.sha512(data).hexdigest()
+            with open(ip + "." + alg, "w") as f:
+                f.write("%s  inventory.json\n" % h)
+    return True
+
+
 SPECIAL_MV = ["committed-file", "committed-file-dotdot", "symlink-to-committed-file", "via-symlink-dir", "staged-file",
               "parent-of-root", "root-itself", "object-dir", "mixed", "staging-root"]
 # ("symlink-to-outside-file" is resolvable below but not drawn: mv of a source that is itself a symbolic link to a
@@ -1117,13 +1154,20 @@ def run_history(ctx, env, hno, layout, ext, ext_missing, seed, n_random, stats, 
     valid = {}
     fault_steps = set()
     if fault_budget:
-        cand = [n for n, s_ in enumerate(steps) if s_["op"] in ("commit", "upgrade", "cp_ext", "mv_ext", "mv_int", "rm", "reset", "new", "purge", "reset_all", "cp_int")]
+        cand = [n for n, s_ in enumerate(steps) if "special" not in s_ and s_["op"] in ("commit", "upgrade", "cp_ext", "mv_ext", "mv_int", "rm", "reset", "new", "purge", "reset_all", "cp_int")]
         rng.shuffle(cand)
         commits = [n for n in cand if steps[n]["op"] in ("commit", "upgrade")]
         fault_steps = set(commits[:max(1, fault_budget // 2)] + cand[:fault_budget - min(len(commits), max(1, fault_budget // 2))])
     n = 0
     while n < len(steps):
         step = steps[n]
+        if step["op"] == "plant":
+            a_ = find_obj(pre["objs"], step["from"])
+            if a_ is not None:
+                plant_object(a_["root"], step["dest"], step["id"])
+                pre = w.state()
+            n += 1
+            continue
         if step.get("special") and "src" not in step:
             step["src"] = special_sources(w, pre, step["special"], rng)
             if not step["src"]:
@@ -1169,9 +1213,6 @@ def run_history(ctx, env, hno, layout, ext, ext_missing, seed, n_random, stats, 
             shutil.rmtree(bak, ignore_errors=True)
         pre = rec["post"]
         n += 1
-    for p in ABS_LITERALS:           # only a regression of the guards creates them (the trace oracle reports the call)
-        if p not in _abs_leftover and os.path.lexists(p):
-            shutil.rmtree(p, ignore_errors=True)
     return w, recs
 
 
@@ -1341,8 +1382,7 @@ def evaluate(ctx, prop, out, stats, imports=("Base.Bytes", "Model.FsOps", "Model
     stats_out["coq_terms"] = len(terms)
     stats_out["covers_checked"] = sum(1 for o in owners if o[0] == "covers")
     stats_out["guard_checked"] = sum(1 for o in owners if o[0] == "guard")
-    if _abs_leftover:
-        stats_out["literal_absolute_ids_skipped_because_leftover_exists"] = list(_abs_leftover)
+    stats_out["absolute_ids"] = "point into the scratch tree (<outer>/abs-target...); none under layout 0007, where the tuples are cut from the id text"
     ctx.coverage["ops_by_kind_outcome_injection"] = {"%s/%s/%s" % k: v for k, v in sorted(kinds.items(), key=lambda x: str(x))}
     ctx.coverage["distribution"] = stats_out
     ctx.coverage["traces_validated_against_impl"] = nrec
